@@ -301,6 +301,23 @@ class VLambda(V):
         self.node, self.env = node, env
 
 
+class VPartial(V):
+    """functools.partial(f, *args, **kw): calling it calls f with the stored arguments in front"""
+
+    def __init__(self, f, args, kw):
+        self.f, self.args, self.kw = f, list(args), dict(kw)
+
+    def vcall(self, e, st, a, kw):
+        f, args, kws = self.f, self.args + list(a), {**self.kw, **kw}
+        if isinstance(f, VBound) and isinstance(f.recv, VRef):
+            return e.call_method(st, f.recv, f.name, args, kws)
+        if isinstance(f, VLambda):
+            return e.call_lambda(f, args, kws, st)
+        if hasattr(f, "vcall"):
+            return f.vcall(e, st, args, kws)
+        raise Unsupported("partial of " + type(f).__name__)
+
+
 class VSuper(V):
     """super(Cls, self): attribute lookup continues after Cls in the MRO of the receiver's class"""
 
